@@ -87,6 +87,7 @@ func main() {
 	pl.ID = id
 	if *surveyF {
 		os.Setenv("VERIF_SURVEY", "1")
+		os.Setenv("VERIF_SURVEY_DIR", filepath.Join(verifDir, ".build", "survey"))
 	}
 	bin, err := build(&pl)
 	if err != nil {
